@@ -343,9 +343,9 @@ class MediaRequestBase(RequestHandlerBase):
             if (
                     code >= 500 and
                     options.failureCount is not None and
-                    self.increment_error_counter(content_type, code) > options.failureCount
+                    self.increment_error_counter(f'{content_type}-{pos}', code) > options.failureCount
             ):
-                self.reset_error_counter(content_type, code)
+                self.reset_error_counter(f'{content_type}-{pos}', code)
                 continue
             return flask.make_response(f'Synthetic {code} for {content_type}', code)
         return None
